@@ -212,11 +212,15 @@ TEXT = {
           "ts < t (estimate loop + sort.Search, total for whole-second instants), proof momentum determined by the chain "
           "prefix, cache = recomputation, and momentum_verify_sound for the verifier whose check ORDER is read from the Go "
           "AST on every run; all tied to the tree by three differential streams (election, ticker, mverify on a real mock "
-          "chain with every single-field mutation and wrongly signed momentums) with model-free monitors.",
+          "chain with every single-field mutation and wrongly signed momentums) with model-free monitors, including "
+          "persistence round trips of the consensus store (protobuf + leveldb, evicted LRU, re-opened directory), a node "
+          "restarted on its persistent consensus database every round, and every election repeated while other goroutines "
+          "draw from the process-wide math/rand generator (regenerated fact: no reference to it in the deciding packages).",
   "design_ref": "§3 C05",
   "note": "rand.Perm / sort.Sort / hashes / ed25519 / momentum VM are parameters or oracle values with explicit hypotheses; "
           "pillar weights (ComputePillarDelegations) are taken from the real code; cross-node schedule equality after "
-          "restart/reorg is by the cold-vs-cached comparison on one node plus the prefix theorem, not by a multi-node run.",
+          "restart/reorg is by the cold-vs-cached-vs-restarted comparison on one node plus the prefix theorem, not by a multi-node run; "
+          "persistence and independence from process-wide randomness are monitors and a regenerated AST fact, not model theorems.",
   "technique": "Lean 4 proof (induction, permutation reasoning) + regenerated facts (constants, verifier check order from "
                "the AST) + differential correspondence + model-free monitors",
  },
@@ -273,9 +277,13 @@ TEXT = {
  },
  "C18": {
   "text": "Kernel-checked theorems that GetRange is the statement's slice for all (index,count,len), pages tile the "
-          "list and each element lies on exactly one page; model tied by a differential stream over the full uint32 range.",
+          "list and each element lies on exactly one page; model tied by a differential stream over the full uint32 range "
+          "and by every page of every paged getter of every registered service (found by reflection) on ledgers whose "
+          "collections span several pages; the JSON-RPC server is driven in a child process over all five transports with a "
+          "per-request answer monitor derived from JSON-RPC 2.0.",
   "design_ref": "§3 C18",
-  "note": "JSON-RPC server survival and embedded getters are not theorems (runtime / correspondence).",
+  "note": "JSON-RPC server survival and the content of embedded getters are not theorems (runtime / correspondence); known "
+          "findings F2b (index*size wrap in the reward / epoch history pagers) and F23 (AcceleratorApi.GetAll unbounded).",
   "technique": "Lean 4 proof (omega) + differential correspondence",
  },
  "C14": {
